@@ -69,6 +69,9 @@ func runC20(r *core.Run) {
 	}
 	vec := 0
 	for i := range obs {
+		if obs[i].Skipped {
+			continue // not executed: the run had already met many calls that do not return
+		}
 		o, op, g := &obs[i], &ops[i], &gs[opG[i]]
 		var gg struct {
 			Ratio, MinX, MinY, W, Ys, Cs int
